@@ -544,6 +544,10 @@ class Repo:
         if isinstance(ann, ast.Name):
             if ann.id in ("int", "float", "str", "bool"):
                 return ("prim", ann.id)
+            if ann.id in ("set", "Set", "frozenset"):
+                return ("set", None)
+            if ann.id in ("list", "List"):
+                return ("list", None)
             # TypeVar bound
             tv = mod.assigns.get(ann.id)
             if isinstance(tv, ast.Call) and ast.unparse(tv.func).endswith("TypeVar"):
@@ -842,9 +846,11 @@ class TypeEnv:
                 if f.id in ("list", "sorted", "reversed", "tuple") and expr.args:
                     e = st_elem(self.type_of(expr.args[0], _d + 1))
                     return ("list", e) if e else None
-                if f.id in ("set", "frozenset") and expr.args:
-                    e = st_elem(self.type_of(expr.args[0], _d + 1))
-                    return ("set", e) if e else None
+                if f.id in ("set", "frozenset"):
+                    e = st_elem(self.type_of(expr.args[0], _d + 1)) if expr.args else None
+                    return ("set", e)
+                if f.id == "range":
+                    return ("list", ("prim", "int"))
                 if f.id == "super":
                     if self.fn.cls is not None:
                         mro = repo.mro(self.fn.cls)
@@ -853,6 +859,10 @@ class TypeEnv:
                     return ("prim", "int")
                 if f.id in ("str",):
                     return ("prim", "str")
+            if isinstance(f, ast.Attribute) and f.attr in ("intersection", "union", "difference", "symmetric_difference", "copy"):
+                bt0 = self.type_of(f.value, _d + 1)
+                if bt0 is not None and bt0[0] == "set":
+                    return bt0
             callees, _ = self.resolve_call(expr, _d + 1)
             for c in callees:
                 if c.name == "__init__" and c.cls is not None:
@@ -922,7 +932,10 @@ class TypeEnv:
         if isinstance(expr, ast.SetComp):
             sub = self._comp_env(expr)
             t = sub.type_of(expr.elt, _d + 1)
-            return ("set", t) if t else None
+            return ("set", t)
+        if isinstance(expr, ast.Set):
+            ts = [self.type_of(e, _d + 1) for e in expr.elts]
+            return ("set", ts[0] if ts and all(t == ts[0] for t in ts) else None)
         if isinstance(expr, ast.BinOp) and isinstance(expr.op, ast.Add):
             lt = self.type_of(expr.left, _d + 1)
             if lt is not None and lt[0] == "list":
